@@ -451,6 +451,9 @@ func c08Oracle(b []byte, mv *midiView, sv *smfView) (bad []string) {
 	if mv.noteEnd != wantEnd {
 		add("GetNoteEnd = %v, GetNoteOn = %v %v, GetNoteOff = %v", mv.noteEnd, mv.acc[0], mv.val[0], mv.acc[1])
 	}
+	if mv.nilProblem != "" {
+		add("%s", mv.nilProblem)
+	}
 	if mv.ch != mv.cat[3] {
 		add("GetChannel = %v, Is(ChannelMsg) = %v", mv.ch, mv.cat[3])
 	}
